@@ -87,11 +87,22 @@ func runC15(c *Ctx) {
 		expect = 200
 		r = ask("ti", "GET", "?access_token="+url.QueryEscape(tok))
 	case 2:
-		// clock: five minutes plus the one-minute leeway
+		// clock: five minutes plus the one-minute leeway.  In half of the runs the token is
+		// first presented while fresh (a verifier must not remember that verdict)
+		if c.T.Bool(1, 2) {
+			// first presentation at some age inside its validity (a verifier must not remember
+			// that verdict beyond the token's own expiry)
+			c.S.Advance(time.Duration(c.T.Choose(350)) * time.Second)
+			if r0 := ask("ti0", "GET", "?access_token="+url.QueryEscape(tok)); r0.Status != 200 {
+				c.S.Fail("C15", "valid-token-refused", "mode=%s: token refused with %d at age %v", mode, r0.Status, time.Since(mintedAt))
+				return
+			}
+			kind = fmt.Sprintf("first-presented-at-age=%v-then-", time.Since(mintedAt).Round(time.Second))
+		}
 		d := time.Duration(c.T.Choose(600)) * time.Second
 		c.S.Advance(d)
 		age := time.Since(mintedAt)
-		kind = fmt.Sprintf("age=%v", age)
+		kind += fmt.Sprintf("age=%v", age)
 		if age < 358*time.Second {
 			expect = 200
 		} else if age < 362*time.Second {
